@@ -4,8 +4,8 @@ Model of `_ResamplingHelper` and of the filter of `_StreamingHelper._receive_sam
 
 Time is `Int` microseconds.  The buffer is a `deque(maxlen)`: a list in arrival order (oldest first) that drops from
 the front.  `bisect` is the real binary search of CPython's `bisect_right`.  The guard of the input-period estimate,
-the `math.ceil` buffer-length formula, the relevance period, `minimum_relevant_timestamp`, the keys of the two
-bisections and the None/NaN filter are regenerated from the Python source (`Frequenz.Extracted.Resampling`).
+the buffer length the deque is rebuilt with, the two keys of the bisections that bound the slice and the None/NaN
+filter are regenerated from the Python source (`Frequenz.Extracted.Resampling`).
 The *value* of the input-period estimate goes through floats in Python (`timedelta(seconds=Δ.total_seconds() / n)`)
 and is an input of the model (`est`), read back from the implementation.
 -/
@@ -30,7 +30,10 @@ structure Cfg where
   period : Int
   maxAge : Rat
   initLen : Nat
+  /-- `max_buffer_len` -/
   maxLen : Nat
+  /-- `warn_buffer_len` -/
+  warnLen : Nat := 128
 deriving Repr
 
 structure Helper where
@@ -76,20 +79,16 @@ decreasing_by all_goals omega
 
 def bisectRight (l : List Sample) (x : Int) : Nat := bisectGo l x 0 l.length
 
-def keyOf (k : BisectKey) (timestamp minimumRelevant : Int) : Int :=
-  match k with
-  | .minimumRelevantTimestamp => minimumRelevant
-  | .timestamp => timestamp
+/-- The older edge of the relevance window at tick `T` (exclusive). -/
+def minRelevant (cfg : Cfg) (h : Helper) (T : Int) : Int := relevanceLowKey T cfg.period h.inputPeriod cfg.maxAge
 
-/-- The lower edge of the relevance window at tick `T`. -/
-def minRelevant (cfg : Cfg) (h : Helper) (T : Int) : Int :=
-  minimumRelevantTimestamp T (relevancePeriod cfg.period h.inputPeriod) cfg.maxAge
+/-- The newer edge of the relevance window at tick `T` (inclusive). -/
+def maxRelevant (cfg : Cfg) (h : Helper) (T : Int) : Int := relevanceHighKey T cfg.period h.inputPeriod cfg.maxAge
 
-/-- `relevant_samples = list(islice(buffer, min_index, max_index))`. -/
+/-- `relevant_samples = list(islice(buffer, bisect(buffer, low key), bisect(buffer, high key)))`. -/
 def relevant (cfg : Cfg) (h : Helper) (T : Int) : List Sample :=
-  let m := minRelevant cfg h T
-  let lo := bisectRight h.buf (keyOf minIndexKey T m)
-  let hi := bisectRight h.buf (keyOf maxIndexKey T m)
+  let lo := bisectRight h.buf (minRelevant cfg h T)
+  let hi := bisectRight h.buf (maxRelevant cfg h T)
   (h.buf.take hi).drop lo
 
 /-- The lower clamp of the source applied to an estimate (`max(estimate, timedelta.resolution)` on a fixed tree). -/
@@ -103,11 +102,7 @@ def updatePeriod (cfg : Cfg) (h : Helper) (T : Int) (est : Int) : Helper × Bool
 /-- The new `maxlen` of `_update_buffer_len` (`none`: `ZeroDivisionError`, the estimate rounded to 0 µs). -/
 def newBufferLen (cfg : Cfg) (ip : Int) : Option Nat :=
   if ip = 0 ∧ ¬ (ip > cfg.period) then none
-  else
-    let raw := rawBufferLen ip cfg.period cfg.maxAge
-    let n : Int := if raw > 1 then raw else 1
-    let n : Int := if n > (cfg.maxLen : Int) then (cfg.maxLen : Int) else n
-    some n.toNat
+  else some (newBufferLenOf ip cfg.period cfg.maxAge cfg.maxLen cfg.warnLen).toNat
 
 /-- `self._buffer = deque(self._buffer, maxlen=n)` (skipped when `n` is the current `maxlen`: same content). -/
 def resize (h : Helper) (n : Nat) : Helper :=
